@@ -349,15 +349,15 @@ def inject(f, k, d, rng):
     def delopt(key):
         s['opts'] = [o for o in opts if o[0] != key]
     if d == 'bad-version':
-        setopt('version', rng.choice(['2.0', '1', '1.1', 'x', '10']))
+        setopt('version', rng.choice(['2.0', '1', '1.1', 'x', '10', '0', '1.00']))
     elif d == 'missing-version':
         delopt('version')
     elif d == 'missing-length':
         delopt('length')
     elif d == 'unknown-line-endings':
-        setopt('line_endings', rng.choice(['mac', 'DOS', 'Unix', 'crlf', '5']))
+        setopt('line_endings', rng.choice(['mac', 'DOS', 'Unix', 'crlf', '5', '0', '00', '-0', 'none']))
     elif d == 'format-not-json':
-        setopt('format', rng.choice(['yaml', 'JSON', 'xml', '1']))
+        setopt('format', rng.choice(['yaml', 'JSON', 'xml', '1', '0']))
     elif d == 'no-final-newline':
         body = bytes.fromhex(s['content'])
         sd = {k2: v for k2, v in opts}
